@@ -176,3 +176,127 @@ def publish_tag_index():
 
     atexit.register(_rm)
     return path
+
+
+# ---------------------------------------------------------------------------
+# table blobs embedded in the repository's own table unit tests
+
+_BLOBS = {}
+_BLOB_BASE = {}
+
+
+def _harvest_blobs():
+    """{key: (tag, bytes)} for module-level `NAME_DATA = deHexStr("..")` / bytes constants in
+    Tests/ttLib/tables/*_test.py, found by parsing the files (nothing is imported or executed). These are
+    the only samples of about twenty table kinds (kern, mort, morx, trak, cidg, gcid, TSI*, ...) that no
+    corpus font contains."""
+    import ast
+
+    from fontTools.ttLib import identifierToTag
+
+    out = {}
+    d = os.path.join(TESTS, "ttLib", "tables")
+    for fn in sorted(os.listdir(d)):
+        if not fn.endswith("_test.py"):
+            continue
+        ident = fn[: -len("_test.py")]
+        try:
+            tag = identifierToTag(ident)
+        except Exception:
+            continue
+        if len(tag) != 4 or ident in ("otBase", "otConverters", "otTables", "tables", "ttProgram", "TupleVariation"):
+            continue
+        try:
+            with open(os.path.join(d, fn), encoding="utf-8") as f:
+                tree = ast.parse(f.read())
+        except (OSError, SyntaxError):
+            continue
+        for node in tree.body:
+            if not (isinstance(node, ast.Assign) and len(node.targets) == 1 and isinstance(node.targets[0], ast.Name)):
+                continue
+            name = node.targets[0].id
+            if not name.endswith("DATA"):
+                continue
+            v = node.value
+            data = None
+            try:
+                if isinstance(v, ast.Call) and getattr(v.func, "id", None) == "deHexStr" and len(v.args) == 1:
+                    s = ast.literal_eval(v.args[0])
+                    data = bytes.fromhex("".join(s.split()))
+                elif isinstance(v, ast.Constant) and isinstance(v.value, bytes):
+                    data = v.value
+            except (ValueError, SyntaxError):
+                data = None
+            if data:
+                out["%s:%s" % (ident, name)] = (tag, data)
+    return out
+
+
+# tables the base font needs for itself, or that only make sense together with others (variations)
+_BLOB_SKIP = {"head", "hhea", "maxp", "hmtx", "post", "glyf", "loca", "cmap", "name", "OS/2", "vhea", "vmtx", "fvar", "gvar", "cvar", "avar", "HVAR", "VVAR", "MVAR", "CFF ", "CFF2", "TSI0", "TSI1", "TSI2", "TSI3"}
+
+
+def blob_keys():
+    """Blobs that fit the base font: the table decodes eagerly and recompiles to the same bytes (samples cut
+    from larger fonts, e.g. an opbd table that addresses glyphs the base font does not have, are left out)."""
+    if not _BLOB_BASE.get("listed"):
+        import io
+
+        from fontTools.ttLib import TTFont
+
+        _BLOB_BASE["listed"] = True
+        _BLOBS.clear()
+        lvl = logging.root.manager.disable
+        logging.disable(logging.CRITICAL)
+        try:
+            for k, v in _harvest_blobs().items():
+                if v[0] in _BLOB_SKIP:
+                    continue
+                _BLOBS[k] = v
+                try:
+                    f = TTFont(io.BytesIO(blob_font(k)), lazy=False, recalcTimestamp=False)
+                    t = f[v[0]]
+                    if hasattr(t, "ensureDecompiled"):
+                        t.ensureDecompiled()
+                    ok = t.compile(f) == v[1]
+                except Exception:
+                    ok = False
+                if not ok:
+                    del _BLOBS[k]
+        finally:
+            logging.disable(lvl)
+    return sorted(_BLOBS)
+
+
+def blob_font(key):
+    """A 320-glyph TrueType font (built once with FontBuilder) carrying the blob as table `tag`, assembled by
+    the independent sfnt writer."""
+    if key not in _BLOBS:
+        _BLOBS[key] = _harvest_blobs()[key]  # (a replay in a fresh interpreter names its blob directly)
+    tag, data = _BLOBS[key]
+    if "b" not in _BLOB_BASE:
+        import io
+
+        from fontTools.fontBuilder import FontBuilder
+        from fontTools.ttLib.tables._g_l_y_f import Glyph
+
+        fb = FontBuilder(1000, isTTF=True)
+        names = [".notdef"] + ["g%03d" % i for i in range(1, 320)]
+        fb.setupGlyphOrder(names)
+        fb.setupCharacterMap({0x100 + i: n for i, n in enumerate(names) if i})
+        fb.setupGlyf({n: Glyph() for n in names})
+        fb.setupHorizontalMetrics({n: (500, 0) for n in names})
+        fb.setupHorizontalHeader()
+        fb.setupNameTable({"familyName": "Blob", "styleName": "R"})
+        fb.setupOS2()
+        fb.setupPost()
+        fb.font["head"].created = fb.font["head"].modified = 3_600_000_000
+        fb.font.recalcTimestamp = False
+        b = io.BytesIO()
+        fb.font.save(b)
+        _BLOB_BASE["b"] = b.getvalue()
+    from oracles import container
+
+    tabs = dict(container.tables_of(_BLOB_BASE["b"]))
+    tabs[tag] = data
+    return container.rebuild_sfnt(_BLOB_BASE["b"][:4], tabs)
